@@ -222,7 +222,11 @@ def hs_raises(ctx, st, exc):
 def call_setup(ctx):
     known = ctx.choose(2, "name-declared") == 1
     had_section = ctx.choose(2, "section-already-in-namespace") == 1
+    # a --config given before may already have named a subcommand (another one): the one named on the command line is the later source and wins
+    named_before = [None, "test", "fit"][ctx.choose(3, "subcommand-already-named-by-an-earlier-source")]
     store = {}
+    if named_before is not None:
+        store["subcommand"] = named_before
     prev = Rec("Namespace", attrs={"tag": "prev"}, methods={"clone": lambda c, s_, a, k: Rec("Namespace", attrs={"clone_of": s_})})
     if had_section:
         store["fit"] = prev
@@ -255,7 +259,7 @@ def call_frame(ctx, d):
 def call_post(ctx, st, result):
     d = st.data
     call_frame(ctx, d)
-    ctx.oblige("post", "name-stored-under-dest", d["store"].get("subcommand") == "fit")
+    ctx.oblige("post", "the-name-given-on-the-command-line-is-stored-under-dest(whatever an earlier source named)", d["store"].get("subcommand") == "fit")
     if d["known"]:
         ctx.oblige("post", "subparser-result-stored-under-the-name", d["store"].get("fit") is d["result"])
         ev = [e for e in ctx.events if e[0] == "sub.parse_args"]
